@@ -13,6 +13,7 @@ import (
 	"math"
 	"fmt"
 	"go/ast"
+	"go/parser"
 	"go/token"
 	"math/big"
 	"path/filepath"
@@ -41,11 +42,12 @@ const (
 	tyU64s // []uint64
 	tyF64s // []float64 (as bit patterns)
 	tyU32s // [N]uint32 (elements carried as uint64 below 2^32)
+	tyStrs // ...string: a list of byte strings (carried like a key set, in order)
 )
 
 // functions translated, in dependency order (callees first is not required)
 var goSrcFuncs = []string{
-	"Iter.moveToEnd", "Iter.calcNext", "Iter.Type", "Iter.Advance", "Iter.AdvanceInto", "Iter.AdvanceIter",
+	"Iter.moveToEnd", "Iter.calcNext", "Iter.Type", "Iter.Advance", "Iter.AdvanceInto", "Iter.AdvanceIter", "Iter.AdvanceIter#self",
 	"Iter.PeekNext", "Iter.PeekNextTag",
 	"Iter.SetFloat", "Iter.SetInt", "Iter.SetUInt", "Iter.SetBool", "Iter.SetNull", "Iter.SetStringBytes",
 	"ParsedJson.stringByteAt", "Iter.StringBytes", "Iter.Bool", "Object.NextElementBytes",
@@ -56,7 +58,7 @@ var goSrcFuncs = []string{
 	"Array.AsFloat", "Array.AsInteger", "Array.AsUint64",
 	"ParsedJson.get_current_loc", "ParsedJson.write_tape", "ParsedJson.writeTapeTagVal", "ParsedJson.writeTapeTagValFlags",
 	"ParsedJson.write_tape_s64", "ParsedJson.write_tape_double", "ParsedJson.annotate_previousloc", "parseString", "addNumber",
-	"min", "max", "fmtF", "appendFloatF", "appendFloat", "Serializer.indexString",
+	"min", "max", "fmtF", "appendFloatF", "appendFloat", "Serializer.indexString", "Object.FindKey", "Object.FindPath",
 }
 
 // functions in which constant expressions are folded (as the compiler does) before printing; the functions translated
@@ -102,6 +104,7 @@ var structKinds = map[string]structKind{
 	"Array":      {fields: []string{"off"}, ftypes: map[string]gty{"off": tyInt}},
 	"ParsedJson": {fields: []string{}, ftypes: map[string]gty{}},
 	"Serializer": {fields: []string{"stringsTable", "stringBuf", "stringWr.out", "tagsBuf", "valuesBuf", "memHash.answers"}, ftypes: map[string]gty{"memHash.answers": tyU64s, "stringsTable": tyU32s, "stringBuf": tyBytes, "stringWr.out": tyBytes, "tagsBuf": tyBytes, "valuesBuf": tyBytes}, noTape: true},
+	"Element": {fields: []string{"Name", "Type", "Iter.off", "Iter.addNext", "Iter.cur", "Iter.t", "Iter.lim"}, ftypes: map[string]gty{"Name": tyBytes, "Type": tyU8}, noTape: true},
 	"decimalSlice": {fields: []string{"d", "nd", "dp", "neg"}, ftypes: map[string]gty{"d": tyBytes, "nd": tyInt, "dp": tyInt, "neg": tyBool}, noTape: true},
 }
 
@@ -216,6 +219,14 @@ func tyOfTypeExpr(e ast.Expr) gty {
 	case *ast.MapType:
 		if k, ok := t.Key.(*ast.Ident); ok && k.Name == "string" && nows(src(t.Value)) == "struct{}" {
 			return tyKeys
+		}
+	case *ast.StarExpr:
+		if id, ok := t.X.(*ast.Ident); ok && id.Name == "Element" {
+			return tyPtr
+		}
+	case *ast.Ellipsis:
+		if id, ok := t.Elt.(*ast.Ident); ok && id.Name == "string" {
+			return tyStrs
 		}
 	case *ast.FuncType:
 		return tyFunc
@@ -407,6 +418,16 @@ func (t *gsTr) expr(e ast.Expr, want gty) (string, gty) {
 			}
 			return "(.bool false /- nil -/)", tyErr
 		}
+		if want == tyErr && x.Name == "ErrPathNotFound" {
+			if _, isLocal := t.locals[x.Name]; !isLocal {
+				return "(.bool true /- ErrPathNotFound -/)", tyErr // a package-level error value: non-nil
+			}
+		}
+		if t.kinds[x.Name] == "Element" && want == tyPtr {
+			// the pointer itself, as a result: nil or not
+			t.aliasParams[x.Name+"==nil"] = true
+			return fmt.Sprintf("(.not (.v %s)) /- %s -/", strconv.Quote(x.Name+"==nil"), x.Name), tyPtr
+		}
 		if ty, ok := t.locals[x.Name]; ok {
 			if t.poison[x.Name] {
 				gsDie(e, "variable read after an inner scope shadowed it (one store slot per name)")
@@ -465,6 +486,16 @@ func (t *gsTr) expr(e ast.Expr, want gty) (string, gty) {
 		}
 		gsDie(e, "composite literal")
 	case *ast.SliceExpr:
+		if id, ok := x.X.(*ast.Ident); ok && t.locals[id.Name] == tyStrs {
+			if x.Low == nil || x.High != nil || x.Slice3 {
+				gsDie(e, "string list slice shape")
+			}
+			lo, lty := t.expr(x.Low, tyInt)
+			if lty != tyInt {
+				gsDie(e, "string list slice bound")
+			}
+			return fmt.Sprintf("(.dropK (.v %s) %s)", strconv.Quote(id.Name), lo), tyStrs
+		}
 		b, bty := t.expr(x.X, tyUnk)
 		if bty != tyBytes || x.Slice3 {
 			gsDie(e, "slice expression")
@@ -491,6 +522,13 @@ func (t *gsTr) expr(e ast.Expr, want gty) (string, gty) {
 		}
 		return fmt.Sprintf("(.sliceB %s %s %s)", b, lo, hi), tyBytes
 	case *ast.IndexExpr:
+		if id, ok := x.X.(*ast.Ident); ok && t.locals[id.Name] == tyStrs {
+			idx, ity := t.expr(x.Index, tyInt)
+			if ity != tyInt {
+				gsDie(e, "string list index type")
+			}
+			return fmt.Sprintf("(.idxK (.v %s) %s)", strconv.Quote(id.Name), idx), tyBytes
+		}
 		if base, ok := t.isTape(x.X); ok {
 			idx, ity := t.expr(x.Index, tyInt)
 			if ity != tyInt && ity != tyU64 {
@@ -541,7 +579,7 @@ func (t *gsTr) expr(e ast.Expr, want gty) (string, gty) {
 				if base, ok := t.isTape(x.Args[0]); ok {
 					return fmt.Sprintf("(.lenTape %s)", strconv.Quote(base)), tyInt
 				}
-				if id2, ok := x.Args[0].(*ast.Ident); ok && t.locals[id2.Name] == tyKeys {
+				if id2, ok := x.Args[0].(*ast.Ident); ok && (t.locals[id2.Name] == tyKeys || t.locals[id2.Name] == tyStrs) {
 					return fmt.Sprintf("(.lenK (.v %s))", strconv.Quote(id2.Name)), tyInt
 				}
 				if a, aty := t.expr(x.Args[0], tyUnk); aty == tyBytes {
@@ -1111,9 +1149,25 @@ func (t *gsTr) binary(x *ast.BinaryExpr, want gty) (string, gty) {
 	// pointer comparison of two iterator pointers: a named boolean input of the function
 	if isCmp {
 		if a, ok := x.X.(*ast.Ident); ok && t.iters[a.Name] {
+			if b, ok := x.Y.(*ast.Ident); ok && b.Name == a.Name && (x.Op == token.EQL || x.Op == token.NEQ) {
+				return fmt.Sprintf("(.bool %v /- %s -/)", x.Op == token.EQL, nows(src(x))), tyBool // one object under two names
+			}
 			if b, ok := x.Y.(*ast.Ident); ok && t.iters[b.Name] && (x.Op == token.EQL || x.Op == token.NEQ) {
 				t.aliasParams[a.Name+x.Op.String()+b.Name] = true
 				return fmt.Sprintf("(.v %s)", strconv.Quote(a.Name+x.Op.String()+b.Name)), tyBool
+			}
+		}
+	}
+	if isCmp && (x.Op == token.EQL || x.Op == token.NEQ) {
+		if id, ok := x.X.(*ast.Ident); ok && t.kinds[id.Name] == "Element" {
+			if n, ok := x.Y.(*ast.Ident); ok && n.Name == "nil" {
+				// whether the caller passed nil: a named boolean input of the function (`dst = &Element{}` clears it)
+				t.aliasParams[id.Name+"==nil"] = true
+				v := fmt.Sprintf("(.v %s)", strconv.Quote(id.Name+"==nil"))
+				if x.Op == token.NEQ {
+					v = "(.not " + v + ")"
+				}
+				return v, tyBool
 			}
 		}
 	}
@@ -1259,6 +1313,38 @@ func (t *gsTr) callArgs(call *ast.CallExpr, recv, callee string) (string, string
 	if !known || !have {
 		gsDie(call, "callee %s is not translated", callee)
 	}
+	if recv != "" && cfd.Recv != nil {
+		// a pointer argument that IS the receiver: the specialised variant (see selfVariant)
+		rty := nows(src(cfd.Recv.List[0].Type))
+		var rest []ast.Expr
+		aliasedArg := false
+		ai := 0
+		for _, f := range cfd.Type.Params.List {
+			for range f.Names {
+				if ai < len(call.Args) {
+					a := call.Args[ai]
+					if u, isAddr := a.(*ast.UnaryExpr); isAddr && u.Op == token.AND {
+						a = u.X
+					}
+					if id, isId := a.(*ast.Ident); isId && id.Name == recv && nows(src(f.Type)) == rty {
+						aliasedArg = true
+					} else {
+						rest = append(rest, call.Args[ai])
+					}
+				}
+				ai++
+			}
+		}
+		if aliasedArg {
+			vfd, has := t.p.funcs[callee+"#self"]
+			if !has {
+				gsDie(call, "pointer argument aliases the receiver and %s#self is not translated", callee)
+			}
+			cp := *call
+			cp.Args = rest
+			call, callee, cfd = &cp, callee+"#self", vfd
+		}
+	}
 	k := 0
 	for _, f := range cfd.Type.Params.List {
 		for range f.Names {
@@ -1278,6 +1364,13 @@ func (t *gsTr) callArgs(call *ast.CallExpr, recv, callee string) (string, string
 			if kind, isPtr := ptrKind(f.Type); isPtr {
 				if u, isAddr := a.(*ast.UnaryExpr); isAddr && u.Op == token.AND {
 					a = u.X // &x: the struct variable x itself
+				}
+				if sx, isSel := a.(*ast.SelectorExpr); isSel && kind == "Iter" && sx.Sel.Name == "Iter" {
+					// &e.Iter for an Element e: the struct variable `e.Iter`
+					if eid, ok := sx.X.(*ast.Ident); ok && t.kinds[eid.Name] == "Element" {
+						ptrs = append(ptrs, eid.Name+".Iter")
+						continue
+					}
 				}
 				id, isId := a.(*ast.Ident)
 				if !isId || t.kinds[id.Name] != kind {
@@ -1631,6 +1724,22 @@ func (t *gsTr) stmt0(s ast.Stmt, ind string) string {
 					delete(t.poison, er.Name)
 					return fmt.Sprintf(".extAssign [%s, %s, %s] %s [%s]", strconv.Quote(v.Name), strconv.Quote(er.Name), strconv.Quote(er.Name+".range"), strconv.Quote(l.name), a)
 				}
+			}
+		}
+		// dst = &Element{}
+		if x.Tok == token.ASSIGN && len(x.Lhs) == 1 && len(x.Rhs) == 1 && nows(src(x.Rhs[0])) == "&Element{}" {
+			if id, ok := x.Lhs[0].(*ast.Ident); ok && t.kinds[id.Name] == "Element" {
+				n := id.Name
+				t.aliasParams[n+"==nil"] = true
+				return strings.Join([]string{
+					fmt.Sprintf(".assign %s (.bool false)", strconv.Quote(n+"==nil")),
+					fmt.Sprintf(".assign %s .nilB", strconv.Quote(n+".Name")),
+					fmt.Sprintf(".assign %s (.u8 0)", strconv.Quote(n+".Type")),
+					fmt.Sprintf(".assign %s (.int 0)", strconv.Quote(n+".Iter.off")),
+					fmt.Sprintf(".assign %s (.int 0)", strconv.Quote(n+".Iter.addNext")),
+					fmt.Sprintf(".assign %s (.u64 0)", strconv.Quote(n+".Iter.cur")),
+					fmt.Sprintf(".assign %s (.u8 0)", strconv.Quote(n+".Iter.t")),
+					fmt.Sprintf(".assign %s (.int 0)", strconv.Quote(n+".Iter.lim"))}, ",\n"+ind)
 			}
 		}
 		// _, ok := m[string(k)]
@@ -2299,7 +2408,45 @@ func stmtText(st ast.Stmt) string {
 }
 
 func leanDefName(fn string) string {
-	return "go" + strings.ReplaceAll(fn, ".", "_")
+	return "go" + strings.ReplaceAll(strings.ReplaceAll(fn, ".", "_"), "#", "_")
+}
+
+// selfVariant is the function fd specialised to calls whose pointer arguments of the receiver's type ARE the receiver
+// (`tmp.AdvanceIter(&tmp)`): those parameters are dropped and their names renamed to the receiver's, which is what
+// aliasing means — one object under two names. (The general translation keeps receiver and parameter apart.)
+func selfVariant(fd *ast.FuncDecl) *ast.FuncDecl {
+	f, err := parser.ParseFile(fset, "", "package p\n"+src(fd), 0)
+	if err != nil || len(f.Decls) != 1 {
+		die("gosrc: cannot re-parse %s", fd.Name.Name)
+	}
+	nfd := f.Decls[0].(*ast.FuncDecl)
+	if nfd.Recv == nil || len(nfd.Recv.List) != 1 || len(nfd.Recv.List[0].Names) != 1 {
+		die("gosrc: %s: receiver", fd.Name.Name)
+	}
+	recv := nfd.Recv.List[0].Names[0].Name
+	rty := nows(src(nfd.Recv.List[0].Type))
+	aliased := map[string]bool{}
+	var keep []*ast.Field
+	for _, fld := range nfd.Type.Params.List {
+		if nows(src(fld.Type)) == rty {
+			for _, nm := range fld.Names {
+				aliased[nm.Name] = true
+			}
+			continue
+		}
+		keep = append(keep, fld)
+	}
+	if len(aliased) == 0 {
+		die("gosrc: %s has no parameter of its receiver's type", fd.Name.Name)
+	}
+	nfd.Type.Params.List = keep
+	ast.Inspect(nfd.Body, func(n ast.Node) bool {
+		if id, ok := n.(*ast.Ident); ok && aliased[id.Name] {
+			id.Name = recv
+		}
+		return true
+	})
+	return nfd
 }
 
 func genGoSrc(p *pkgInfo, out string) {
@@ -2308,6 +2455,13 @@ func genGoSrc(p *pkgInfo, out string) {
 	b.WriteString("import SJ.GoSem.Lang\nset_option maxRecDepth 4096\nnamespace SJ.Generated\nopen SJ.GoSem\n\n")
 	names := append([]string{}, goSrcFuncs...)
 	for _, fn := range names {
+		if base := strings.TrimSuffix(fn, "#self"); base != fn {
+			bfd, ok := p.funcs[base]
+			if !ok {
+				die("gosrc: function %s not found", base)
+			}
+			p.funcs[fn] = selfVariant(bfd)
+		}
 		fd, ok := p.funcs[fn]
 		if !ok {
 			die("gosrc: function %s not found", fn)
@@ -2360,7 +2514,7 @@ func genGoSrc(p *pkgInfo, out string) {
 					t.locals[nm.Name] = tyFunc
 					continue
 				}
-				if ty != tyInt && ty != tyU64 && ty != tyU8 && ty != tyBool && ty != tyBytes && ty != tyF64 && ty != tyKeys {
+				if ty != tyInt && ty != tyU64 && ty != tyU8 && ty != tyBool && ty != tyBytes && ty != tyF64 && ty != tyKeys && ty != tyStrs {
 					die("gosrc: %s: parameter %s has an unsupported type", fn, nm.Name)
 				}
 				t.locals[nm.Name] = ty
